@@ -762,3 +762,96 @@ async def _s_add_cb(ctx: Ctx, a: Actor, st: dict) -> Any:
 @step("remove_cb")
 async def _s_remove_cb(ctx: Ctx, a: Actor, st: dict) -> Any:
     _remove_raw_cb(ctx, st["sid"])
+
+
+# ----------------------------------------------------------------------------------------
+# frame-helper level (C01-C04): the real helper on a real transport, stub connection
+# ----------------------------------------------------------------------------------------
+
+
+class StubConnection:
+    """Recording stand-in for the helper's only collaborator."""
+
+    def __init__(self, ctx: Ctx, oid: str) -> None:
+        self._w = ctx.world
+        self._oid = oid
+        self.closed = False
+
+    def process_packet(self, msg_type: int, data: bytes) -> None:
+        self._w.rec("pp", conn=self._oid, type=msg_type, data=bytes(data), state="CLOSED" if self.closed else "CONNECTED")
+
+    def report_fatal_error(self, err: Exception) -> None:
+        self._w.rec("fatal", conn=self._oid, err=exc_info(err), state="CLOSED" if self.closed else "CONNECTED")
+        self.closed = True
+        fh = getattr(self, "fh", None)
+        if fh is not None:
+            fh.close()
+
+
+@step("fh.attach")
+async def _fh_attach(ctx: Ctx, a: Actor, st: dict) -> Any:
+    import socket as _s
+
+    from .core import SimSocket
+    from .device import SimConn
+
+    w = ctx.world
+    L = ctx.L
+    sock = SimSocket(w, _s.AF_INET, _s.SOCK_STREAM, _s.IPPROTO_TCP)
+    sock.connect_done = True
+    sock.peer = ("10.0.0.5", 6053)
+    dev = next(iter(ctx.devices.values()))
+    conn = SimConn(w.net, sock, dev)
+    sock.conn = conn
+    w.net.conns.append(conn)
+    oid = w.new_id("conn")
+    stub = StubConnection(ctx, oid)
+    w.rec("conn_new", conn=oid)
+    w.rec("tcp_established", fd=sock._fd, addr="10.0.0.5", conn=conn.cid)
+    ctx.extra["stub"] = stub
+    kind = st.get("kind", "plaintext")
+
+    def factory() -> Any:
+        if kind == "noise":
+            fh = L.noise.APINoiseFrameHelper(connection=stub, noise_psk=st["psk"], expected_name=st.get("expected_name"), client_info="simclient", log_name="sim")
+        else:
+            fh = L.plain_text.APIPlaintextFrameHelper(connection=stub, client_info="simclient", log_name="sim")
+        return fh
+
+    dev.on_connect(conn)
+    _, fh = await w.loop.create_connection(factory, sock=sock)
+    stub.fh = fh
+    ctx.extra["fh"] = fh
+
+    def on_ready(fut: Any) -> None:
+        if fut.cancelled():
+            w.rec("fh_ready", conn=oid, ok=False, err={"cls": "CancelledError", "mro": [], "api": False, "text": "", "chain": []})
+        elif fut.exception() is not None:
+            w.rec("fh_ready", conn=oid, ok=False, err=exc_info(fut.exception()))
+        else:
+            w.rec("fh_ready", conn=oid, ok=True, err=None)
+
+    fh.ready_future.add_done_callback(on_ready)
+    if st.get("wait_ready", True):
+        try:
+            await fh.ready_future
+        except asyncio.CancelledError:
+            raise
+    return oid
+
+
+@step("fh.write")
+async def _fh_write(ctx: Ctx, a: Actor, st: dict) -> Any:
+    from .device import gen_bytes
+
+    fh = ctx.extra["fh"]
+    packets = []
+    for p in st["packets"]:
+        payload = gen_bytes(p["gen"][0], p["gen"][1]) if "gen" in p else bytes.fromhex(p.get("payload_hex", ""))
+        packets.append((p["type"], payload))
+    fh.write_packets(packets, bool(ctx.world.knobs.get("debug")))
+
+
+@step("fh.close")
+async def _fh_close(ctx: Ctx, a: Actor, st: dict) -> Any:
+    ctx.extra["fh"].close()
